@@ -477,7 +477,10 @@ func weaken(t *rapid.T, v spec.V, allowDyn, dynPos bool, kinds *[]string, prob i
 	}
 	out := v
 	out.Elems = make([]spec.V, len(v.Elems))
-	childDyn := v.T.K == spec.KTuple || v.T.K == spec.KObject
+	// a member may become DynamicVal only in a tuple/object position that is
+	// not itself (transitively) a member of a collection: collection members
+	// must keep one common element type.
+	childDyn := dynPos && (v.T.K == spec.KTuple || v.T.K == spec.KObject)
 	for i, e := range v.Elems {
 		out.Elems[i] = weaken(t, e, allowDyn, childDyn, kinds, prob+1)
 	}
@@ -650,13 +653,23 @@ func boundFor(t *rapid.T, n *spec.Num, x *big.Float, side int) (spec.Num, bool) 
 		if rapid.Bool().Draw(t, "intbound") {
 			i, _ := b.Int(nil)
 			bi := new(big.Float).SetPrec(512).SetInt(i)
-			if side < 0 && bi.Cmp(x) < 0 || side > 0 && bi.Cmp(x) > 0 {
+			if (side < 0 && bi.Cmp(x) < 0 || side > 0 && bi.Cmp(x) > 0) && shortText(bi) != shortText(x) {
 				return spec.NParse(i.String()), rapid.Bool().Draw(t, "inc")
 			}
+		}
+		if shortText(b) == shortText(x) {
+			// the bound would be "equal" to the value under cty's text-based
+			// number equality (possible for low-precision values): use the
+			// value itself, inclusive.
+			return *n, true
 		}
 		return spec.Num{Route: "big", Text: b.Text('g', 160), Prec: 512}, rapid.Bool().Draw(t, "inc")
 	}
 }
+
+// shortText is the shortest decimal text identifying f at its precision (the
+// text cty's number equality compares).
+func shortText(f *big.Float) string { return f.Text('f', -1) }
 
 // lubType is the type constraint used for an unknown replacing v.
 func lubType(v spec.V) spec.T {
